@@ -101,6 +101,16 @@ def check_all_kinds(rec, B, G, PG, qubits, N, gs, ps, rng, dense=True, tag=""):
             rec.check("rot.pauli" if full else "rot.mask.pauli", np.array_equal(lg, eg[j]) and lp == ep[j] and R is P,
                       [case["G"], case["qubits"], O.show(gs[j], ps[j])], nt and bool(O.anti(Gfull, gs[j])),
                       expected=O.show(eg[j], ep[j]), observed=O.show(lg, lp))
+    # monomial receiver (pyclifford): string and phase rotated, coefficient untouched
+    if hasattr(B.paulialg, "PauliMonomial"):
+        j = int(rng.integers(len(gs)))
+        Mn = B.Pauli(gs[j].copy(), int(ps[j])).as_monomial()
+        Mn.c = 0.5 - 2j
+        ok, R = rec.attempt("rot.mono", case, lambda: Mn.rotate_by(gen_, **kw))
+        if ok:
+            lg, lp = B.gp(Mn)
+            rec.check("rot.mono" if full else "rot.mask.mono", np.array_equal(lg, eg[j]) and lp == ep[j] and Mn.c == 0.5 - 2j and R is Mn,
+                      [case["G"], case["qubits"], O.show(gs[j], ps[j])], nt and bool(O.anti(Gfull, gs[j])), expected=O.show(eg[j], ep[j]), observed=O.show(lg, lp))
     # polynomial: coefficients untouched
     cs = gen.rand_coeffs(rng, len(gs))
     Q = B.Poly(gs.copy(), ps.copy(), cs.copy())
